@@ -38,7 +38,7 @@ BadFacets(s, ns, ev) ==
   LET o == ev.obs
       op == ev.op
       res == IF "res" \in DOMAIN o THEN o.res ELSE <<>>
-  IN {f \in DOMAIN o :
+  IN BadRes(s, ns, op, res) \cup {f \in (DOMAIN o) \ {"res"} :
         CASE f = "grid"  -> o.grid # ObsGridAll(ns)
           [] f = "drows" -> o.drows # ObsDetached(ns)
           [] f = "text"  -> o.text # ObsText(ns)
@@ -46,7 +46,6 @@ BadFacets(s, ns, ev) ==
           [] f = "props" -> \/ Range(o.props.vals) # ObsPropSet(ns)
                             \/ Len(o.props.vals) # Cardinality(ObsPropSet(ns))
                             \/ ~AgreeChain(ns, o.props.chain)
-          [] f = "res"   -> ~AgreeRes(s, ns, op, res)
           [] f = "obspanic" -> TRUE
           [] OTHER -> ~AgreeMore(s, ns, op, f, o[f])}
 
@@ -58,7 +57,8 @@ Explain(f, ns, ev) ==
     [] f = "errs"  -> [exp |-> [tbl |-> [t \in DOMAIN ns.tbl |-> Ids(ns.tbl[t].errs)],
                                 ecs |-> [e \in DOMAIN ns.ec |-> Ids(ns.ec[e].errs)]],
                        obs |-> ev.obs.errs]
-    [] OTHER -> [obs |-> ev.obs[f], hint |-> ExplainMore(ns, ev.op, f)]
+    [] f \in DOMAIN ev.obs -> [obs |-> ev.obs[f], hint |-> ExplainMore(ns, ev.op, f)]
+    [] OTHER -> [obs |-> ev.obs.res, hint |-> ExplainMore(ns, ev.op, f)]
 
 Init == /\ st = InitState /\ l = 1 /\ scen = "" /\ poisoned = FALSE /\ nmis = 0
 
